@@ -32,8 +32,16 @@ SlotName(q) == IF q <= P.nh * P.nv
                THEN [p |-> "weights", j |-> ((q - 1) \div P.nv) + 1, i |-> ((q - 1) % P.nv) + 1]
                ELSE IF q <= P.nh * P.nv + P.nv THEN [p |-> "visible_bias", j |-> 0, i |-> q - P.nh * P.nv]
                ELSE [p |-> "hidden_bias", j |-> q - P.nh * P.nv - P.nv, i |-> 0]
+\* one statement of the layout for the whole specification: the offsets of LayoutDefs.tla, which Layout.tla derives from
+\* the vector_to_grads loop and TraceLayout.tla binds to the real function
+LD == INSTANCE LayoutDefs
+ArchOf == <<"binary", P.nv, P.nh, 0>>
 LayoutBijection ==
-    IsPt => /\ \A j \in 1..P.nh : \A i \in 1..P.nv : SlotName(SlotW(j, i)) = [p |-> "weights", j |-> j, i |-> i]
+    IsPt => /\ \A j \in 1..P.nh : \A i \in 1..P.nv : SlotW(j, i) = LD!Slot(ArchOf, "weights", j, i)
+            /\ \A i \in 1..P.nv : SlotB(i) = LD!Slot(ArchOf, "visible_bias", 1, i)
+            /\ \A j \in 1..P.nh : SlotC(j) = LD!Slot(ArchOf, "hidden_bias", 1, j)
+            /\ NPars = LD!NPars(ArchOf)
+            /\ \A j \in 1..P.nh : \A i \in 1..P.nv : SlotName(SlotW(j, i)) = [p |-> "weights", j |-> j, i |-> i]
             /\ \A i \in 1..P.nv : SlotName(SlotB(i)) = [p |-> "visible_bias", j |-> 0, i |-> i]
             /\ \A j \in 1..P.nh : SlotName(SlotC(j)) = [p |-> "hidden_bias", j |-> j, i |-> 0]
             /\ Cardinality({SlotW(j, i) : j \in 1..P.nh, i \in 1..P.nv} \cup {SlotB(i) : i \in 1..P.nv}
